@@ -45,7 +45,9 @@ fn snapshot(st: &TuiState) -> String {
 fn check(frames: &[Event], max_frames: usize, max_out: usize) -> Option<String> {
     let run = |frames: &[Event]| -> Result<TuiState, String> {
         let fr = frames.to_vec();
-        std::panic::catch_unwind(move || { let mut st = TuiState::new(max_frames, max_out); for e in fr { st.update(e); } st }).map_err(|e| e.downcast_ref::<String>().cloned().or_else(|| e.downcast_ref::<&str>().map(|s| s.to_string())).unwrap_or_else(|| "panic".into()))
+        std::panic::catch_unwind(move || { let mut st = TuiState::new(max_frames, max_out); for e in fr { st.update(e);
+            // the derived timings are read after every frame, as the surfaces do when they redraw: total for any order of time stamps
+            let _ = (st.ttft_ms(), st.e2e_ms(), st.openresponses_headers_ms(), st.openresponses_first_byte_ms(), st.openresponses_first_provider_event_ms()); } st }).map_err(|e| e.downcast_ref::<String>().cloned().or_else(|| e.downcast_ref::<&str>().map(|s| s.to_string())).unwrap_or_else(|| "panic".into()))
     };
     // headless summaries of every frame: total and deterministic
     for e in frames {
